@@ -26,7 +26,10 @@ Inductive cev :=
 | EErrorResponse (xlogpos : N)  (* server error; IDENTIFY_SYSTEM during recovery answers xlogpos *)
 | ECopyOther                    (* CopyData with another leading byte *)
 | EParam                        (* ParameterStatus / ParameterDescription *)
-| EUnexpected.                  (* any other message type: fatal *)
+| EUnexpected                   (* any other message type: fatal *)
+| EErrorResponseFail (at_identify : bool).
+    (* server error whose recovery fails: no connection can be had for it (false), or the connection is
+       there and IDENTIFY_SYSTEM fails on it (true); recoverFromErrorResponse returns the error, Start returns *)
 
 (* one loop iteration's inputs: did the progress ticker fire (polled at the loop head), the values
    waiting on the progress channel when handleProgress runs at the loop head, whether the
@@ -159,6 +162,14 @@ Definition recover (s : cstate) (xlogpos : N) : cstate * list cobs :=
   (mkCst (overall s) xlogpos (ctxn s) (ckey s) false true false (hb_count s) (hb_slow s) (begins s) false,
    o ++ [CClose; CGetPlain true; CIdentify; CClose]).
 
+(* a recovery that fails: the synthetic COMMIT and the Close of the broken connection have happened, the
+   recovery connection was obtained or not; nothing else (in particular not the second Close) *)
+Definition recover_fail (s : cstate) (at_identify : bool) : cstate * list cobs :=
+  let o := if negb (first_iter s) && negb (saw_commit s)
+           then [COut "COMMIT" (ctxn s) (ckey s) (if (highest s =? 0)%N then overall s else highest s)]
+           else [] in
+  (set_conn s false, o ++ [CClose] ++ (if at_identify then [CGetPlain true] else [])).
+
 (* handlePrimaryKeepaliveMessage after the forced status update *)
 Definition heartbeat (s : cstate) (slow : bool) : cstate * bool (* fatal: rapid requests *) :=
   let sl := hb_slow s || slow in
@@ -197,6 +208,7 @@ Definition cstep (s : cstate) (it : citer) : cstate * list cobs :=
       | ENil | ECopyOther | EParam => (s2, o)
       | EUnexpected | EKeepaliveBad => fatal s2 o
       | EErrorResponse x => let '(s3, o3) := recover s2 x in (s3, o ++ o3)
+      | EErrorResponseFail idf => let '(s3, o3) := recover_fail s2 idf in fatal s3 (o ++ o3)
       | EKeepalive _ false _ => (s2, o)
       | EKeepalive _ true slow =>
           match handle_progress s2 true (i_prog2 it) (i_pclosed2 it) with
